@@ -43,7 +43,9 @@ def block_seeded():
                 how = "concrete input, stream `%s`" % (first.get("stream") or first.get("key", "").split("|")[0])
         out.append("| %s | %s | %s | %s | %s | %s |" % (
             name, m["breaks"], m["needs"].replace("|", "\\|"), ", ".join(m["caught_by"]) or "**missed**", how,
-            ("yes: " + m["strengthened"].replace("|", "\\|")) if m.get("strengthened") else "no"))
+            (("yes: " + m["strengthened"].replace("|", "\\|")) if m.get("strengthened") else "no")
+            + (" — SUPERSEDED: " + m["superseded"].replace("|", "\\|") if m.get("superseded") else "")
+            + (" — patch re-made on the repaired tree" if m.get("rebased") else "")))
     return "\n".join(out)
 
 
